@@ -88,9 +88,10 @@ void harness(void)
     CHECK(A(setTweak)(obj, 0, 8) == 1, "null tweak accepted");
     CHECK(mantis_set_key(&ks, sym_key, 16, 8, MANTIS_ENCRYPT) == 1, "C key");
     A(encryptBlock)(obj, out, sym_in); mantis_ecb_crypt(exp, sym_in, &ks);
-#else               /* decryptBlock of the class == C library decrypt schedule */
+#else               /* Mantis8::decryptBlock is documented to be the same operation as encryptBlock (the mode is chosen with
+                       swapModes(), as in the C library where mantis_ecb_crypt serves both modes) */
     CHECK(A(setTweak)(obj, sym_t1, 8) == 1, "tweak accepted");
-    CHECK(mantis_set_key(&ks, sym_key, 16, 8, MANTIS_DECRYPT) == 1 && mantis_set_tweak(&ks, sym_t1, 8) == 1, "C key and tweak");
+    CHECK(mantis_set_key(&ks, sym_key, 16, 8, MANTIS_ENCRYPT) == 1 && mantis_set_tweak(&ks, sym_t1, 8) == 1, "C key and tweak");
     A(decryptBlock)(obj, out, sym_in); mantis_ecb_crypt(exp, sym_in, &ks);
 #endif
     CHECK_BYTES_EQ(out, exp, 8, "Mantis8 gives what the C library gives for rounds = 8");
